@@ -83,6 +83,9 @@ def main(prop, extra_parts=None):
     if chk.args.only:
         configs = [c for c in configs if chk.args.only in c]
     tier = 1 if chk.thorough else 0
+    if os.environ.get("VERIF_RUNS_K"):
+        for c in list(K_TABLE) + configs:
+            K_TABLE[c] = (int(os.environ["VERIF_RUNS_K"]),) * 2
     from jellyfysh.mediator.single_process_mediator import SingleProcessMediator
     from jellyfysh.activator.tag_activator import TagActivator
     from jellyfysh.state_handler.tree_state_handler import TreeStateHandler
